@@ -5,10 +5,22 @@
 package cert
 
 // ---- C05: the TLS configuration handed to crypto/tls is derived from the user's settings as documented
+// the CA the operator pinned is never silently dropped: when a CA file is configured the result is what was read
+// from it, and a file that cannot be read is an error (not "no CA configured", which would make crypto/tls fall
+// back to the system trust store)
+//@ ghost G_snap_ca_read_failed() bool
+//@ ghost G_snap_ca_bytes() []byte
+//@ func findFile
+//@   property C05
+//@   pure
+//@   trusted "looks the file up in a few directories (file system only; writes no program state)"
 //@ func (m *Config) GetCaCertificates
 //@   property C05
 //@   pure
-//@   trusted "reads the CA bundle from the configuration or from a file"
+//@   callsite ReadFile#1 (b []byte, e error) assume G_snap_ca_read_failed() == (e != nil) && spec_sameslice(G_snap_ca_bytes(), b) "ghost snapshot: outcome of reading the configured CA file"
+//@   ensures old(m.CaCertificateFile) != "" && G_snap_ca_read_failed() ==> err != nil                                  :an_unreadable_ca_file_is_an_error
+//@   ensures old(m.CaCertificateFile) != "" && err == nil ==> spec_sameslice(result, G_snap_ca_bytes())                :a_configured_ca_file_is_what_gets_used
+//@   ensures old(m.CaCertificateFile) == "" && old(m.CaCertificate) == "" ==> result == nil && err == nil              :no_ca_configured_means_none
 
 //@ func (m *Config) GetX509KeyPair
 //@   property C05
